@@ -488,3 +488,90 @@ func isReadFullInto(p *Prog, t ssa.Value, base ssa.Value) bool {
 	}
 	return len(call.Call.Args) >= 2 && p.Render(call.Call.Args[1]) == p.Render(base)
 }
+
+// narrowProducts lists every conversion to a 64-bit integer whose operand is a
+// product (or shift) computed in 32 bits or less from non-constant operands:
+// int64(a * b) overflows in the narrow type before it is widened.
+func (c *Ctx) narrowProducts(pkgs []string) []ssa.Instruction {
+	var out []ssa.Instruction
+	size := func(t types.Type) int {
+		b, ok := t.Underlying().(*types.Basic)
+		if !ok || b.Info()&types.IsInteger == 0 {
+			return 0
+		}
+		switch b.Kind() {
+		case types.Int8, types.Uint8:
+			return 8
+		case types.Int16, types.Uint16:
+			return 16
+		case types.Int32, types.Uint32:
+			return 32
+		}
+		return 64
+	}
+	for _, fn := range c.P.SrcFuncs() {
+		if !c.inScope(fn, pkgs) {
+			continue
+		}
+		for _, b := range fn.Blocks {
+			for _, in := range b.Instrs {
+				cv, ok := in.(*ssa.Convert)
+				if !ok || size(cv.Type()) != 64 {
+					continue
+				}
+				bo, ok := cv.X.(*ssa.BinOp)
+				if !ok || (bo.Op != token.MUL && bo.Op != token.SHL) {
+					continue
+				}
+				s := size(bo.Type())
+				if s == 0 || s > 32 {
+					continue
+				}
+				_, cx := bo.X.(*ssa.Const)
+				_, cy := bo.Y.(*ssa.Const)
+				if cx && cy {
+					continue
+				}
+				out = append(out, in)
+			}
+		}
+	}
+	return out
+}
+
+// WideOffsets (K12): no file offset or size is computed as a narrow product.
+func (c *Ctx) WideOffsets(key string, pkgs []string) {
+	rule := "K12 arithmetic width (products widened before, not after, the multiplication)"
+	desc := "in packages " + strings.Join(pkgs, ", ") + " no 32-bit product of page number and page size is widened to 64 bits after the multiplication"
+	why := "int64(pageN * pageSize) wraps at 4 GiB: a database of that size is truncated, read or written at the wrong offset"
+	bad := c.narrowProducts(pkgs)
+	if len(bad) > 0 {
+		var w []string
+		for _, in := range bad {
+			w = append(w, c.where(in)+": "+c.P.Render(in.(ssa.Value)))
+		}
+		c.fail(key, rule, desc, why, "narrow product widened afterwards at "+strings.Join(w, "; "), len(bad))
+		return
+	}
+	// positive example that must match on every run: count the 64-bit products of widened operands
+	n := 0
+	for _, fn := range c.P.SrcFuncs() {
+		if !c.inScope(fn, pkgs) {
+			continue
+		}
+		for _, b := range fn.Blocks {
+			for _, in := range b.Instrs {
+				if bo, ok := in.(*ssa.BinOp); ok && bo.Op == token.MUL {
+					if _, isConv := bo.X.(*ssa.Convert); isConv {
+						n++
+					}
+				}
+			}
+		}
+	}
+	if n < 5 {
+		c.fail(key, rule, desc, why, fmt.Sprintf("only %d wide products recognised (matcher no longer recognises the construct)", n), n)
+		return
+	}
+	c.ok(key, rule, desc, n)
+}
